@@ -237,7 +237,7 @@ func runC08(c *Ctx) {
 				}
 				t := &touch{direct: map[*types.Named]map[string]bool{}, callee: map[*types.Named]map[string]bool{}, allocs: map[*types.Named]bool{}}
 				perBlock[cs.block] = t
-				reg := regionOf(cs.block)
+				reg := regionOfFV(cs.block) // callbacks written as method values / named functions belong to the case (robust_A4.go)
 				addTo := func(m map[*types.Named]map[string]bool, n *types.Named, f string) {
 					if m[n] == nil {
 						m[n] = map[string]bool{}
@@ -260,8 +260,10 @@ func runC08(c *Ctx) {
 						if cf == nil || !pi.inScope[cf] && (cf.Pkg == nil || cf.Pkg.Pkg.Path() != pkgPdataJSON) {
 							return
 						}
-						// accessor / helper one level down
-						allInstrs(cf, func(ci ssa.Instruction) {
+						// accessor / helper below the case (plain helpers are followed, nested decoders are not: robust_A4.go)
+						walkHelper(func(f *ssa.Function) bool {
+							return pi.inScope[f] || (f.Pkg != nil && f.Pkg.Pkg.Path() == pkgPdataJSON)
+						}, cf, func(ci ssa.Instruction) {
 							if fa, ok := ci.(*ssa.FieldAddr); ok {
 								if n := namedOf(fa.X.Type()); isProtogenStruct(n) {
 									addTo(t.callee, n, derefStruct(fa.X.Type()).Field(fa.Field).Name())
@@ -351,7 +353,7 @@ func runC08(c *Ctx) {
 					continue
 				}
 				seenBlock[cs.block] = true
-				regionOf(cs.block).instrs(func(in ssa.Instruction) {
+				regionOfFV(cs.block).instrs(func(in ssa.Instruction) {
 					s, ok := in.(*ssa.Store)
 					if !ok {
 						return
